@@ -456,7 +456,12 @@ def variants(prog: Program, r, tier, ranges, stats):
     asserts = [(o, p, n) for o, p, n in wps if n[0] == "assert"]
     for owner, path, n in pick(asserts, 2):
         root = dict(roots(prog))[owner]
-        for t in ([r.choice([None, gen_text(r)])] if quick else [None, "", gen_text(r), gen_text(r)]):
+        texts = [r.choice([None, gen_text(r)])] if quick else [None, "", gen_text(r), gen_text(r)]
+        if len(n[1]) >= 2:
+            # comments with fewer / as many / more lines than the Assert has conditions
+            k = len(n[1])
+            texts += ["\n".join(f"line {j}" for j in range(m)) for m in sorted({2, k - 1, k, k + 1}) if m >= 2]
+        for t in texts:
             if t == n[2]:
                 continue
             new = set_at(root, path, ("assert", n[1], t))
@@ -655,6 +660,10 @@ def seeded_programs():
         ("op", "PopB", [("op", "Extract", [s, ("int", 2), ("int", 4)])]),
         ("op", "PopB", [("op", "Suffix", [s, ("int", 2)])]),
         ("assert", [("op", "Lt", [("int", 1), ("int", 2)])], "chk"),
+        ("approve",)]), [], []), 6))
+    out.append(("assert-many", Program("app", ("seq", [
+        ("assert", [("op", "Lt", [("int", 1), ("int", 2)]), ("global", "GroupSize"), ("op", "EqU", [("txn", "OnCompletion"), ("int", 0)])], None),
+        ("assert", [("int", 1), ("op", "Ge", [("txn", "Fee"), ("int", 0)]), ("int", 3), ("int", 4)], "one line"),
         ("approve",)]), [], []), 6))
     out.append(("loop-first", Program("app", ("seq", [loop, ("assert", [("int", 1), ("global", "GroupSize")], None), ("ret", ("int", 1))]), [i], []), 4))
     j = Var(U)
